@@ -1,1 +1,490 @@
-/- C08 — theorems (placeholder until the property is built). -/
+/-
+  C08 — Right-image products equal the left products of the mirrored problem.
+
+  The wiring of every run callback is regenerated from pandora/state_machine.py on every run
+  (`Generated/Wiring.lean`).  It is proved (decide, over the generated table) that each callback
+  repeats its left-data operations on the exchanged data with no interference between the two sides,
+  and (for any meaning of the operations, any store, any sequence of callbacks — induction) that running
+  on the exchanged store gives the exchanged result.
+-/
+import PandoraModel.Model.Wiring
+import PandoraModel.Generated.Wiring
+
+namespace Pandora.C08
+open Pandora.Wiring
+
+/-! ### 1. `swapName` is an involution -/
+
+def names : List (String × String) → List String
+  | [] => []
+  | (a, b) :: ps => a :: b :: names ps
+
+theorem swapIn_not_mem (ps : List (String × String)) (n : String) (h : n ∉ names ps) : swapIn ps n = n := by
+  induction ps with
+  | nil => rfl
+  | cons p ps ih =>
+    obtain ⟨a, b⟩ := p
+    simp only [names, List.mem_cons, not_or] at h
+    simp [swapIn, h.1, h.2.1, ih h.2.2]
+
+theorem swapIn_mem (ps : List (String × String)) (n : String) (h : n ∈ names ps) : swapIn ps n ∈ names ps := by
+  induction ps with
+  | nil => simp [names] at h
+  | cons p ps ih =>
+    obtain ⟨a, b⟩ := p
+    simp only [swapIn]
+    by_cases h1 : n = a
+    · simp [h1, names]
+    · by_cases h2 : n = b
+      · simp [h2, names]
+      · simp only [h1, h2, if_false]
+        simp only [names, List.mem_cons] at h ⊢
+        rcases h with h | h | h
+        · exact absurd h h1
+        · exact absurd h h2
+        · exact Or.inr (Or.inr (ih h))
+
+theorem swapIn_invol (ps : List (String × String)) (hnd : (names ps).Nodup) (n : String) :
+    swapIn ps (swapIn ps n) = n := by
+  induction ps with
+  | nil => rfl
+  | cons p ps ih =>
+    obtain ⟨a, b⟩ := p
+    simp only [names, List.nodup_cons, List.mem_cons, not_or] at hnd
+    obtain ⟨⟨hab, ha⟩, hb, hps⟩ := hnd
+    by_cases h1 : n = a
+    · subst h1; simp [swapIn, Ne.symm hab]
+    · by_cases h2 : n = b
+      · subst h2; simp [swapIn, h1]
+      · have hr : swapIn ((a, b) :: ps) n = swapIn ps n := by simp [swapIn, h1, h2]
+        rw [hr]
+        have hne : swapIn ps n ≠ a ∧ swapIn ps n ≠ b := by
+          by_cases hm : n ∈ names ps
+          · have := swapIn_mem ps n hm
+            exact ⟨fun h => ha (h ▸ this), fun h => hb (h ▸ this)⟩
+          · rw [swapIn_not_mem ps n hm]; exact ⟨h1, h2⟩
+        simp [swapIn, hne.1, hne.2, ih hps]
+
+theorem swapName_invol (n : String) : swapName (swapName n) = n :=
+  swapIn_invol swapPairs (by decide) n
+
+theorem swapName_eq_iff (n t : String) : n = swapName t ↔ swapName n = t := by
+  constructor
+  · intro h; rw [h, swapName_invol]
+  · intro h; rw [← h, swapName_invol]
+
+theorem swapEffect_invol (e : Effect) : swapEffect (swapEffect e) = e := by
+  cases e
+  simp [swapEffect, List.map_map, Function.comp_def, swapName_invol]
+
+theorem swapStore_invol {V : Type} (s : Store V) : swapStore (swapStore s) = s := by
+  funext n; simp [swapStore, swapName_invol]
+
+/-! ### 2. Executing the exchanged operation on the exchanged store -/
+
+theorem assignFrom_swap {V : Type} (f : Nat → V) : ∀ (ts : List String) (i : Nat) (s : Store V),
+    assignFrom (swapStore s) f i (ts.map swapName) = swapStore (assignFrom s f i ts) := by
+  intro ts
+  induction ts with
+  | nil => intro i s; rfl
+  | cons t ts ih =>
+    intro i s
+    simp only [List.map_cons, assignFrom]
+    rw [← ih]
+    congr 1
+    funext n
+    simp only [swapStore]
+    by_cases h : n = swapName t
+    · simp [h, swapName_invol]
+    · have : ¬ swapName n = t := fun h' => h ((swapName_eq_iff n t).mpr h')
+      simp [h, this]
+
+theorem exec_swap {V : Type} (sem : Sem V) (e : Effect) (s : Store V) :
+    exec sem (swapEffect e) (swapStore s) = swapStore (exec sem e s) := by
+  unfold exec
+  have hargs : (swapEffect e).args.map (swapStore s) = e.args.map s := by
+    simp [swapEffect, List.map_map, Function.comp_def, swapStore, swapName_invol]
+  simp only [hargs]
+  exact assignFrom_swap _ e.targets 0 s
+
+theorem execs_swap {V : Type} (sem : Sem V) : ∀ (es : List Effect) (s : Store V),
+    execs sem (es.map swapEffect) (swapStore s) = swapStore (execs sem es s) := by
+  intro es
+  induction es with
+  | nil => intro s; rfl
+  | cons e es ih =>
+    intro s
+    simp only [List.map_cons, execs, List.foldl_cons]
+    rw [exec_swap]
+    exact ih _
+
+/-! ### 3. Independent operations commute -/
+
+theorem assignFrom_not_mem {V : Type} (f : Nat → V) : ∀ (ts : List String) (i : Nat) (s : Store V) (n : String),
+    n ∉ ts → assignFrom s f i ts n = s n := by
+  intro ts
+  induction ts with
+  | nil => intro i s n _; rfl
+  | cons t ts ih =>
+    intro i s n h
+    simp only [List.mem_cons, not_or] at h
+    simp only [assignFrom]
+    rw [ih _ _ _ h.2]
+    simp [h.1]
+
+theorem assignFrom_mem {V : Type} (f : Nat → V) : ∀ (ts : List String) (i : Nat) (s s' : Store V) (n : String),
+    n ∈ ts → assignFrom s f i ts n = assignFrom s' f i ts n := by
+  intro ts
+  induction ts with
+  | nil => intro i s s' n h; simp at h
+  | cons t ts ih =>
+    intro i s s' n h
+    simp only [assignFrom]
+    by_cases hm : n ∈ ts
+    · exact ih _ _ _ _ hm
+    · rw [assignFrom_not_mem _ _ _ _ _ hm, assignFrom_not_mem _ _ _ _ _ hm]
+      have : n = t := by simpa [hm] using h
+      simp [this]
+
+theorem exec_eq {V : Type} (sem : Sem V) (e : Effect) (s : Store V) :
+    exec sem e s = assignFrom s (fun i => sem e.fn i (e.args.map s)) 0 e.targets := rfl
+
+theorem exec_comm {V : Type} (sem : Sem V) (a b : Effect) (h : indep a b = true) (s : Store V) :
+    exec sem a (exec sem b s) = exec sem b (exec sem a s) := by
+  simp only [indep, Bool.and_eq_true, List.all_eq_true, Bool.not_eq_true', List.contains_eq_mem,
+    decide_eq_false_iff_not] at h
+  obtain ⟨hab, hba⟩ := h
+  have hargsA : a.args.map (exec sem b s) = a.args.map s := by
+    apply List.map_congr_left
+    intro x hx
+    unfold exec
+    apply assignFrom_not_mem
+    intro hxb
+    exact (hba x hxb).1 hx
+  have hargsB : b.args.map (exec sem a s) = b.args.map s := by
+    apply List.map_congr_left
+    intro x hx
+    unfold exec
+    apply assignFrom_not_mem
+    intro hxa
+    exact (hab x hxa).1 hx
+  funext n
+  rw [exec_eq sem a (exec sem b s), hargsA, exec_eq sem b (exec sem a s), hargsB]
+  by_cases hna : n ∈ a.targets
+  · have hnb : n ∉ b.targets := (hab n hna).2
+    rw [assignFrom_mem _ _ _ (exec sem b s) s n hna, assignFrom_not_mem _ _ _ _ _ hnb]
+    rfl
+  · by_cases hnb : n ∈ b.targets
+    · rw [assignFrom_not_mem _ _ _ _ _ hna, assignFrom_mem _ _ _ (exec sem a s) s n hnb]
+      rfl
+    · rw [assignFrom_not_mem _ _ _ _ _ hna, assignFrom_not_mem _ _ _ _ _ hnb,
+        exec_eq, exec_eq, assignFrom_not_mem _ _ _ _ _ hnb, assignFrom_not_mem _ _ _ _ _ hna]
+
+theorem exec_execs_comm {V : Type} (sem : Sem V) (x : Effect) : ∀ (ys : List Effect) (s : Store V),
+    (∀ y ∈ ys, indep x y = true) → exec sem x (execs sem ys s) = execs sem ys (exec sem x s) := by
+  intro ys
+  induction ys with
+  | nil => intro s _; rfl
+  | cons y ys ih =>
+    intro s h
+    simp only [execs, List.foldl_cons]
+    have := ih (exec sem y s) (fun z hz => h z (by simp [hz]))
+    simp only [execs] at this
+    rw [this, exec_comm sem x y (h y (by simp))]
+
+theorem execs_comm {V : Type} (sem : Sem V) : ∀ (xs ys : List Effect) (s : Store V),
+    crossIndep xs ys = true → execs sem ys (execs sem xs s) = execs sem xs (execs sem ys s) := by
+  intro xs
+  induction xs with
+  | nil => intro ys s _; rfl
+  | cons x xs ih =>
+    intro ys s h
+    simp only [crossIndep, List.all_cons, Bool.and_eq_true] at h
+    have hx : ∀ y ∈ ys, indep x y = true := by simpa [List.all_eq_true] using h.1
+    have hxs : crossIndep xs ys = true := h.2
+    simp only [execs, List.foldl_cons]
+    have e1 := ih ys (exec sem x s) hxs
+    simp only [execs] at e1
+    rw [e1]
+    have e2 := exec_execs_comm sem x ys s hx
+    simp only [execs] at e2
+    rw [e2]
+
+theorem execs_append {V : Type} (sem : Sem V) (a b : List Effect) (s : Store V) :
+    execs sem (a ++ b) s = execs sem b (execs sem a s) := by
+  simp [execs, List.foldl_append]
+
+/-! ### 4. Symmetric blocks are equivariant -/
+
+theorem neutral_execs_swap {V : Type} (sem : Sem V) : ∀ (zs : List Effect) (s : Store V),
+    zs.all isNeutral = true → execs sem zs (swapStore s) = swapStore (execs sem zs s) := by
+  intro zs
+  induction zs with
+  | nil => intro s _; rfl
+  | cons z zs ih =>
+    intro s h
+    simp only [List.all_cons, Bool.and_eq_true] at h
+    have hz : swapEffect z = z := by simpa [isNeutral] using h.1
+    simp only [execs, List.foldl_cons]
+    have := exec_swap sem z s
+    rw [hz] at this
+    rw [this]
+    exact ih _ h.2
+
+/-- `X ++ swap X ++ N` executed on the exchanged store gives the exchanged result -/
+theorem xyz_equivariant {V : Type} (sem : Sem V) (x z : List Effect)
+    (hci : crossIndep x (x.map swapEffect) = true) (hz : z.all isNeutral = true) (s : Store V) :
+    execs sem (x ++ x.map swapEffect ++ z) (swapStore s)
+      = swapStore (execs sem (x ++ x.map swapEffect ++ z) s) := by
+  rw [execs_append, execs_append, execs_append, execs_append]
+  -- X on the exchanged store = exchange of (swap X) on the store
+  have h1 : execs sem x (swapStore s) = swapStore (execs sem (x.map swapEffect) s) := by
+    have := execs_swap sem (x.map swapEffect) s
+    simpa [List.map_map, Function.comp_def, swapEffect_invol] using this
+  have h2 : ∀ t, execs sem (x.map swapEffect) (swapStore t) = swapStore (execs sem x t) :=
+    fun t => execs_swap sem x t
+  rw [h1, h2, neutral_execs_swap sem z _ hz, execs_comm sem x (x.map swapEffect) s hci]
+
+
+/-- a list of effects whose execution commutes with the left/right exchange -/
+def Equivariant {V : Type} (sem : Sem V) (es : List Effect) : Prop :=
+  ∀ s : Store V, execs sem es (swapStore s) = swapStore (execs sem es s)
+
+theorem Equivariant.append {V : Type} {sem : Sem V} {a b : List Effect}
+    (ha : Equivariant sem a) (hb : Equivariant sem b) : Equivariant sem (a ++ b) := by
+  intro s
+  rw [execs_append, execs_append, ha, hb]
+
+theorem Equivariant.nil {V : Type} (sem : Sem V) : Equivariant sem [] := fun _ => rfl
+
+theorem symBlock_equivariant {V : Type} (sem : Sem V) (b : List Effect) (h : symBlock b = true) :
+    Equivariant sem b := by
+  unfold symBlock at h
+  simp only [Bool.and_eq_true, decide_eq_true_eq] at h
+  obtain ⟨⟨hy, hz⟩, hci⟩ := h
+  generalize hk : (b.length - (b.filter isNeutral).length) / 2 = k at hy hz hci
+  have hb : b = b.take k ++ (b.take k).map swapEffect ++ b.drop (2 * k) := by
+    rw [← hy]
+    have h1 : b = b.take k ++ b.drop k := (List.take_append_drop k b).symm
+    have h2 : b.drop k = (b.drop k).take k ++ (b.drop k).drop k := (List.take_append_drop k _).symm
+    have h3 : (b.drop k).drop k = b.drop (2 * k) := by rw [List.drop_drop]; congr 1; omega
+    rw [h3] at h2
+    calc b = b.take k ++ b.drop k := h1
+      _ = b.take k ++ ((b.drop k).take k ++ b.drop (2 * k)) := by rw [← h2]
+      _ = b.take k ++ (b.drop k).take k ++ b.drop (2 * k) := by rw [List.append_assoc]
+  intro s
+  rw [hb]
+  have hci' : crossIndep (b.take k) ((b.take k).map swapEffect) = true := hy ▸ hci
+  exact xyz_equivariant sem (b.take k) (b.drop (2 * k)) hci' hz s
+
+/-! ### 5. The callbacks of the source -/
+
+def nonOpt (cb : Callback) : List Effect := cb.right.filter (fun e => !e.optional)
+def opt (cb : Callback) : List Effect := cb.right.filter (fun e => e.optional)
+
+/-- the wiring of a callback is left/right symmetric: the right part repeats the left part on the
+    exchanged data (then the optional operations, symmetric among themselves), the trailing part is
+    symmetric, and the two sides never touch each other's data -/
+def symCallback (cb : Callback) : Bool :=
+  symBlock (cb.left ++ nonOpt cb) && symBlock (opt cb) && symBlock cb.after
+    && decide (cb.right = nonOpt cb ++ opt cb)
+
+theorem effectsOf_right (cb : Callback) (interp : Bool) (h : cb.right = nonOpt cb ++ opt cb) :
+    effectsOf cb true interp = (cb.left ++ nonOpt cb) ++ (if interp then opt cb else []) ++ cb.after := by
+  unfold effectsOf
+  cases interp
+  · simp only [if_true, Bool.or_false, Bool.false_eq_true, if_false, List.append_nil]
+    rfl
+  · have : cb.right.filter (fun e => !e.optional || true) = cb.right := by simp
+    simp only [if_true, this]
+    conv => lhs; rw [h]
+    simp [List.append_assoc]
+
+theorem symCallback_equivariant {V : Type} (sem : Sem V) (cb : Callback) (interp : Bool)
+    (h : symCallback cb = true) : Equivariant sem (effectsOf cb true interp) := by
+  unfold symCallback at h
+  simp only [Bool.and_eq_true, decide_eq_true_eq] at h
+  obtain ⟨⟨⟨h1, h2⟩, h3⟩, h4⟩ := h
+  rw [effectsOf_right cb interp h4]
+  apply Equivariant.append
+  · apply Equivariant.append (symBlock_equivariant sem _ h1)
+    cases interp
+    · exact Equivariant.nil sem
+    · exact symBlock_equivariant sem _ h2
+  · exact symBlock_equivariant sem _ h3
+
+/-- every run callback of the source, except the two discussed below, is left/right symmetric -/
+theorem wiring_symmetric :
+    (Generated.Wiring.callbacks.filter fun cb =>
+        cb.name != "validation_run" && cb.name != "semantic_segmentation_run").all symCallback = true := by
+  decide
+
+/-- all eleven callbacks are present -/
+theorem wiring_callbacks :
+    Generated.Wiring.callbacks.map (·.name) =
+      ["matching_cost_prepare", "matching_cost_run", "aggregation_run", "semantic_segmentation_run",
+       "optimization_run", "disparity_run", "filter_run", "refinement_run", "validation_run",
+       "run_multiscale", "cost_volume_confidence_run"] := by decide
+
+/-- `run_prepare` derives the right interval as (-max, -min) -/
+theorem prepare_mirrors_interval : Generated.Wiring.prepareRightIntervalNegatedSwapped = true := by decide
+
+/-! ### 6. Validation: the right check reads the already-checked left map -/
+
+def ccL : Effect := { targets := ["left_disparity"], fn := "disparity_checking", args := ["left_disparity", "right_disparity"] }
+def interpL : Effect := { targets := ["left_disparity"], fn := "interpolated_disparity", args := ["left_disparity"], optional := true }
+
+/-- the validation callback of the source has exactly this shape: cross-check left against right,
+    then right against the (already checked) left, then — optionally — fill both -/
+theorem validation_shape :
+    (Generated.Wiring.callbacks.find? (·.name == "validation_run")).map
+        (fun cb => (cb.left, cb.right, cb.after))
+      = some ([ccL], [swapEffect ccL, interpL, swapEffect interpL], []) := by decide
+
+/-- what C07 establishes about cross-checking, stated on the abstract semantics: the result depends on
+    the other side only through its disparity map, and the disparity map of the checked side is kept -/
+structure CrossCheckFacts {V W : Type} (sem : Sem V) (dispOf : V → W) : Prop where
+  reads_disp_only : ∀ a b b', dispOf b = dispOf b' →
+    sem "disparity_checking" 0 [a, b] = sem "disparity_checking" 0 [a, b']
+  keeps_disp : ∀ a b, dispOf (sem "disparity_checking" 0 [a, b]) = dispOf a
+
+theorem exec_single {V : Type} (sem : Sem V) (t fn : String) (args : List String) (o : Bool) (s : Store V) :
+    exec sem { targets := [t], fn := fn, args := args, optional := o } s
+      = fun n => if n = t then sem fn 0 (args.map s) else s n := by
+  rfl
+
+theorem validation_cc_equivariant {V W : Type} (sem : Sem V) (dispOf : V → W)
+    (hcc : CrossCheckFacts sem dispOf) : Equivariant sem [ccL, swapEffect ccL] := by
+  intro s
+  have hL : swapName "left_disparity" = "right_disparity" := by decide
+  have hR : swapName "right_disparity" = "left_disparity" := by decide
+  have hsw : swapEffect ccL =
+      { targets := ["right_disparity"], fn := "disparity_checking", args := ["right_disparity", "left_disparity"] } := by
+    decide
+  rw [hsw]
+  simp only [execs, List.foldl_cons, List.foldl_nil, ccL, exec_single]
+  funext n
+  simp only [swapStore, List.map_cons, List.map_nil]
+  have hne : ("right_disparity" : String) ≠ "left_disparity" := by decide
+  have hne' : ("left_disparity" : String) ≠ "right_disparity" := by decide
+  by_cases h1 : n = "right_disparity"
+  · subst h1
+    simp only [hR, hL, if_true, hne, if_false]
+    -- mirrored run: right' = cc(s L, cc(s R, s L)) ; original left' = cc(s L, s R)
+    exact hcc.reads_disp_only _ _ _ (hcc.keeps_disp _ _)
+  · by_cases h2 : n = "left_disparity"
+    · subst h2
+      simp only [hL, hR, hne', if_false, if_true, hne]
+      exact (hcc.reads_disp_only _ _ _ (hcc.keeps_disp _ _)).symm
+    · have h3 : swapName n ≠ "right_disparity" := fun h => h2 (by rw [← swapName_invol n, h, hR])
+      have h4 : swapName n ≠ "left_disparity" := fun h => h1 (by rw [← swapName_invol n, h, hL])
+      simp [h1, h2, h3, h4]
+
+theorem validation_equivariant {V W : Type} (sem : Sem V) (dispOf : V → W)
+    (hcc : CrossCheckFacts sem dispOf) (cb : Callback)
+    (hshape : (cb.left, cb.right, cb.after) = ([ccL], [swapEffect ccL, interpL, swapEffect interpL], []))
+    (interp : Bool) : Equivariant sem (effectsOf cb true interp) := by
+  simp only [Prod.mk.injEq] at hshape
+  obtain ⟨hl, hr, ha⟩ := hshape
+  have hopt : symBlock [interpL, swapEffect interpL] = true := by decide
+  cases interp
+  · have : effectsOf cb true false = [ccL, swapEffect ccL] ++ [] := by
+      simp only [effectsOf, hl, hr, ha]; decide
+    rw [this]
+    exact Equivariant.append (validation_cc_equivariant sem dispOf hcc) (Equivariant.nil sem)
+  · have : effectsOf cb true true = [ccL, swapEffect ccL] ++ [interpL, swapEffect interpL] := by
+      simp only [effectsOf, hl, hr, ha]; decide
+    rw [this]
+    exact Equivariant.append (validation_cc_equivariant sem dispOf hcc) (symBlock_equivariant sem _ hopt)
+
+/-! ### 7. Any sequence of callbacks: the mirrored run gives the mirrored products -/
+
+/-- a run is a sequence of callback executions (which ones, and in which order, is C01's subject and
+    does not depend on the data) -/
+def runSeq {V : Type} (sem : Sem V) : List (Callback × Bool) → Store V → Store V
+  | [], s => s
+  | (cb, interp) :: rest, s => runSeq sem rest (runCb sem true interp cb s)
+
+theorem runSeq_equivariant {V : Type} (sem : Sem V) :
+    ∀ (seq : List (Callback × Bool)),
+      (∀ p ∈ seq, Equivariant sem (effectsOf p.1 true p.2)) →
+      ∀ s : Store V, runSeq sem seq (swapStore s) = swapStore (runSeq sem seq s) := by
+  intro seq
+  induction seq with
+  | nil => intro _ s; rfl
+  | cons p rest ih =>
+    intro h s
+    obtain ⟨cb, interp⟩ := p
+    simp only [runSeq, runCb]
+    rw [h (cb, interp) (by simp)]
+    exact ih (fun q hq => h q (by simp [hq])) _
+
+/-- **Mirror theorem.** For every meaning of the step operations that satisfies the cross-checking
+    facts, every store and every sequence of callbacks of the source other than
+    `semantic_segmentation_run`: running on the exchanged data (images, cost volumes, maps and
+    intervals exchanged) produces exactly the exchanged products — the right products of a run are
+    the left products of the mirrored run and conversely. -/
+theorem mirror {V W : Type} (sem : Sem V) (dispOf : V → W) (hcc : CrossCheckFacts sem dispOf)
+    (seq : List (Callback × Bool))
+    (hsrc : ∀ p ∈ seq, p.1 ∈ Generated.Wiring.callbacks ∧ p.1.name ≠ "semantic_segmentation_run")
+    (s : Store V) :
+    runSeq sem seq (swapStore s) = swapStore (runSeq sem seq s) := by
+  apply runSeq_equivariant
+  intro p hp
+  obtain ⟨hmem, hne⟩ := hsrc p hp
+  by_cases hv : p.1.name = "validation_run"
+  · have hshape := validation_shape
+    have : (Generated.Wiring.callbacks.find? (·.name == "validation_run")) = some p.1 := by
+      have hall : ∀ cb ∈ Generated.Wiring.callbacks, cb.name = "validation_run" →
+          Generated.Wiring.callbacks.find? (·.name == "validation_run") = some cb := by decide
+      exact hall p.1 hmem hv
+    rw [this] at hshape
+    simp only [Option.map_some, Option.some.injEq] at hshape
+    exact validation_equivariant sem dispOf hcc p.1 hshape p.2
+  · apply symCallback_equivariant
+    have hall := wiring_symmetric
+    simp only [List.all_eq_true, List.mem_filter, Bool.and_eq_true, bne_iff_ne, ne_eq, and_imp] at hall
+    exact hall p.1 hmem hv hne
+
+/-- the right products of a run are the left products of the mirrored run, and conversely -/
+theorem right_eq_mirror_left {V W : Type} (sem : Sem V) (dispOf : V → W) (hcc : CrossCheckFacts sem dispOf)
+    (seq : List (Callback × Bool))
+    (hsrc : ∀ p ∈ seq, p.1 ∈ Generated.Wiring.callbacks ∧ p.1.name ≠ "semantic_segmentation_run")
+    (s : Store V) :
+    runSeq sem seq (swapStore s) "left_disparity" = runSeq sem seq s "right_disparity"
+    ∧ runSeq sem seq (swapStore s) "right_disparity" = runSeq sem seq s "left_disparity"
+    ∧ runSeq sem seq (swapStore s) "left_cv" = runSeq sem seq s "right_cv" := by
+  rw [mirror sem dispOf hcc seq hsrc s]
+  refine ⟨?_, ?_, ?_⟩ <;> simp only [swapStore] <;> congr 1
+
+/-- the initial store of the mirrored problem is the exchanged initial store: images exchanged, interval
+    negated and swapped (`neg` involutive) -/
+def initStore {V : Type} (none : V) (neg : V → V) (left right dmin dmax : V) : Store V := fun n =>
+  if n = "left_img" then left else if n = "right_img" then right
+  else if n = "disp_min" then dmin else if n = "disp_max" then dmax
+  else if n = "right_disp_min" then neg dmax else if n = "right_disp_max" then neg dmin
+  else if n = "dmin_user" then dmin else if n = "dmax_user" then dmax
+  else if n = "dmin_user_right" then neg dmax else if n = "dmax_user_right" then neg dmin
+  else none
+
+theorem initStore_mirror {V : Type} (none : V) (neg : V → V) (hneg : ∀ x, neg (neg x) = x)
+    (left right dmin dmax : V) (n : String)
+    (hn : n ∈ ["left_img", "right_img", "disp_min", "disp_max", "right_disp_min", "right_disp_max",
+               "dmin_user", "dmax_user", "dmin_user_right", "dmax_user_right"]) :
+    swapStore (initStore none neg left right dmin dmax) n
+      = initStore none neg right left (neg dmax) (neg dmin) n := by
+  simp only [List.mem_cons, List.mem_nil_iff, or_false] at hn
+  have e1 : swapName "left_img" = "right_img" := by decide
+  have e2 : swapName "right_img" = "left_img" := by decide
+  have e3 : swapName "disp_min" = "right_disp_min" := by decide
+  have e4 : swapName "disp_max" = "right_disp_max" := by decide
+  have e5 : swapName "right_disp_min" = "disp_min" := by decide
+  have e6 : swapName "right_disp_max" = "disp_max" := by decide
+  have e7 : swapName "dmin_user" = "dmin_user_right" := by decide
+  have e8 : swapName "dmax_user" = "dmax_user_right" := by decide
+  have e9 : swapName "dmin_user_right" = "dmin_user" := by decide
+  have e10 : swapName "dmax_user_right" = "dmax_user" := by decide
+  rcases hn with h | h | h | h | h | h | h | h | h | h <;> subst h <;>
+    simp [swapStore, initStore, hneg, e1, e2, e3, e4, e5, e6, e7, e8, e9, e10]
+
+end Pandora.C08
